@@ -148,7 +148,7 @@ PROPS["C10"] = dict(
         S("small-plain", "pure", ["--fam", "mul,ech,ple,trsm,inv,solve,kernel,move", "--mindim", "700"], (260, 1100), (4000, 1600)),
         S("small-asan", "pure", [], (1200, 160), (20000, 400)),
         S("host-nosse-plain", "pure", [], (600, 260), (10000, 900)),
-        S("small-ts-plain-vg", "func", ["--balance", "0"], (160, 90), (2400, 260), valgrind=True, timeout=900),
+        S("small-ts-plain-vg", "func", ["--balance", "0"], (160, 90), (2400, 260), valgrind=True, timeout=300),
     ],
 )
 
@@ -185,15 +185,16 @@ PROPS["C12"] = dict(
          "non-trivial = the same input is in different regimes in at least two builds",
     assumptions=MODEL + ["factors P,L,U,Q, kernel bases and solutions of singular systems are not unique and deliberately not digested",
                          "cache triples sampled: 4K:32K:64K, 16K:256K:1M, 32K:1280K:54M"],
-    stages=[
-        _c12("small-asan", (900, 420), (12000, 1200)),
-        _c12("host-asan", (900, 420), (12000, 1200)),
-        _c12("mid-debug-asan", (900, 420), (12000, 1200)),
-        _c12("small-nosse-ts-asan", (900, 420), (12000, 1200)),
-        _c12("host-nosse-plain", (900, 420), (12000, 1200)),
-        _c12("host-gomp-asan", (900, 420), (12000, 1200), env={"OMP_NUM_THREADS": "4"}),
-        _c12("small-gomp-asan", (900, 420), (12000, 1200), env={"OMP_NUM_THREADS": "3"}),
-    ],
+    stages=lambda tier: [
+        _c12("small-asan", (2400, 420), (12000, 1200)),
+        _c12("host-asan", (2400, 420), (12000, 1200)),
+        _c12("small-nosse-ts-asan", (2400, 420), (12000, 1200)),
+        _c12("host-gomp-asan", (2400, 420), (12000, 1200), env={"OMP_NUM_THREADS": "4"}),
+    ] + ([
+        _c12("mid-debug-asan", (0, 420), (12000, 1200)),
+        _c12("host-nosse-plain", (0, 420), (12000, 1200)),
+        _c12("small-gomp-asan", (0, 420), (12000, 1200), env={"OMP_NUM_THREADS": "3"}),
+    ] if tier == "thorough" else []),
 )
 
 PROPS["C19"] = dict(
@@ -265,7 +266,7 @@ PROPS["C18"] = dict(
         S("small-asan", "io", ["--dir", "@TMP@"], (1600, 60), (24000, 120)),
         S("small-asan", "io", ["--dir", "@TMP@"], (0, 0), (0, 0), forge={"quick": (40, 25, 12), "thorough": (600, 300, 160)}),
         S("small-nosse-ts-asan", "io", ["--dir", "@TMP@"], (400, 60), (4000, 120)),
-        S("small-ts-plain-vg", "io", ["--dir", "@TMP@"], (0, 0), (0, 0), forge={"quick": (6, 4, 2), "thorough": (60, 40, 25)}, valgrind=True, timeout=900),
+        S("small-ts-plain-vg", "io", ["--dir", "@TMP@"], (0, 0), (0, 0), forge={"quick": (6, 4, 2), "thorough": (60, 40, 25)}, valgrind=True, timeout=300),
     ],
 )
 
